@@ -59,7 +59,11 @@ var dirNames = [][]string{
 	{"api", "api/v1", "api/v10"}, {"srv", "srv/internal/db", "srv2"}, {"p", "pq", "pqr"}, {"data", "data_test"},
 }
 
-var faults = []string{"missing", "not_go", "type_error_root", "type_error_import", "dir_for_file", "dangling_symlink", "go_unavailable", "empty_go_file"}
+var faults = []string{"missing", "not_go", "type_error_root", "type_error_import", "dir_for_file", "dangling_symlink", "go_unavailable", "empty_go_file",
+	"syntax_error_root", "import_of_missing_package", "no_go_mod"}
+
+// faults after which the property does not promise an error (only: no crash)
+var onlyNoPanic = map[string]bool{"no_go_mod": true}
 
 func (c17) Generate(env *kernel.Env, r *kernel.Rand, index int) any {
 	var p params
@@ -328,6 +332,12 @@ func (c17) Execute(env *kernel.Env, raw json.RawMessage, ch *kernel.Choices) *ke
 			empty := filepath.Join(base, "emptybin")
 			must(os.MkdirAll(empty, 0o755))
 			os.Setenv("PATH", empty)
+		case "syntax_error_root":
+			must(os.WriteFile(filepath.Join(filepath.Dir(target), "zz_syntax.go"), []byte(fmt.Sprintf("package %s\n\nfunc broken( {\n", p.Pkgs[tpkg].Name)), 0o644))
+		case "import_of_missing_package":
+			must(os.WriteFile(filepath.Join(filepath.Dir(target), "zz_import.go"), []byte(fmt.Sprintf("package %s\n\nimport _ %q\n", p.Pkgs[tpkg].Name, p.Module+"/does/not/exist")), 0o644))
+		case "no_go_mod":
+			must(os.Remove(filepath.Join(modRoot, "go.mod")))
 		case "empty_go_file":
 			// a .go file without a package clause next to the target: the package has a syntax error
 			must(os.WriteFile(filepath.Join(filepath.Dir(target), "zz_empty.go"), nil, 0o644))
@@ -383,7 +393,7 @@ func (c17) Execute(env *kernel.Env, raw json.RawMessage, ch *kernel.Choices) *ke
 		return viol("load_panics", "fault="+fault, "LoadSources panicked: %v", panicked)
 	}
 	if fault != "" {
-		if err == nil {
+		if err == nil && !onlyNoPanic[fault] {
 			return viol("environment_fault_not_reported", "fault="+fault, "LoadSources returned no error although the environment has fault %q", fault)
 		}
 		out.Probe("fault_reported_as_error")
